@@ -1550,10 +1550,10 @@ Proof.
   rewrite (passes_nohdr_subst (req_names s) Hrp _ Hwf). fold (req_segs s). unfold req_segs at 1. rewrite E. reflexivity.
 Qed.
 
-Theorem convert_hdr_subst : forall word s hdr, req_in_grammar s = true -> fast_single_ok word s = false ->
-  convert_hdr word s hdr = restore s (toks (subst_segs (req_names s) (hdr_ctes word (req_toks s)) hdr false (req_segs s))).
+Theorem convert_hdr_subst : forall kwd word s hdr, req_in_grammar s = true -> fast_single_ok kwd word s = false ->
+  convert_hdr kwd word s hdr = restore s (toks (subst_segs (req_names s) (hdr_ctes word (req_toks s)) hdr false (req_segs s))).
 Proof.
-  intros word s hdr H Hf. destruct (in_grammar_facts _ _ H) as (E & Hwf & Hrp).
+  intros kwd word s hdr H Hf. destruct (in_grammar_facts _ _ H) as (E & Hwf & Hrp).
   unfold convert_hdr, restore. rewrite Hf. cbv zeta. fold (req_names s) (req_toks s).
   replace (passes_hdr word (req_names s) hdr (req_toks s)) with (passes_hdr word (req_names s) hdr (toks (segs_of (req_toks s)))) by (rewrite E; reflexivity).
   rewrite (passes_hdr_subst (req_names s) Hrp word hdr _ Hwf). fold (req_segs s). unfold req_segs at 1. rewrite E. reflexivity.
@@ -1583,7 +1583,7 @@ Proof.
 Qed.
 
 Theorem gate_transform_hdr : forall fx s hdr chk rt text, req_in_grammar s = true -> hdr <> [] ->
-  fast_single_ok (fx_with fx) s = false -> hdr_ctes (fx_with fx) (req_toks s) = cte_names (req_toks s) ->
+  fast_single_ok (fx_single fx) (fx_with fx) s = false -> hdr_ctes (fx_with fx) (req_toks s) = cte_names (req_toks s) ->
   gate_gen fx s hdr = OExec chk rt text -> rt = Transformed ->
   text = restore s (toks (subst_segs (req_names s) (hdr_ctes (fx_with fx) (req_toks s)) hdr false (req_segs s)))
   /\ forall r, In r (rewritten_refs (req_names s) (hdr_ctes (fx_with fx) (req_toks s)) hdr false (req_segs s)) -> covers chk r = true.
